@@ -278,3 +278,10 @@ func jsonUnmarshal(b []byte, v any) error {
 	}
 	return json.Unmarshal(b, v)
 }
+
+func getenv(k, def string) string {
+	if v := os.Getenv(k); v != "" {
+		return v
+	}
+	return def
+}
